@@ -144,7 +144,7 @@ func readLines(path string) ([][]byte, error) {
 }
 
 // validate executes one batch of programs and validates the trace with TLC.
-func validate(env *run.Env, bin string, traceMod string, idx int, progs []gen.Program, heapMB int) *batchResult {
+func validate(env *run.Env, bin string, traceMod string, idx int, progs []gen.Program, heapMB int, others ...otherBuild) *batchResult {
 	r := &batchResult{idx: idx, progs: progs}
 	pf := filepath.Join(env.Scratch, fmt.Sprintf("b%d.prog.ndjson", idx))
 	ef := filepath.Join(env.Scratch, fmt.Sprintf("b%d.ev.ndjson", idx))
@@ -174,6 +174,26 @@ func validate(env *run.Env, bin string, traceMod string, idx int, progs []gen.Pr
 		r.progOf = append(r.progOf, pi)
 		r.offOf = append(r.offOf, off)
 		off++
+	}
+	// other build configurations: the event log must be identical, line for line (C07)
+	var buildDiffs []badEntry
+	for _, ob := range others {
+		of := filepath.Join(env.Scratch, fmt.Sprintf("b%d.%s.ev.ndjson", idx, ob.tag))
+		if r.err = env.Exec(ob.bin, pf, of, execTimeout(env)); r.err != nil {
+			return r
+		}
+		ol, err := readLines(of)
+		if err != nil {
+			r.err = err
+			return r
+		}
+		for i := 0; i < len(lines) || i < len(ol); i++ {
+			if i >= len(lines) || i >= len(ol) || string(lines[i]) != string(ol[i]) {
+				buildDiffs = append(buildDiffs, badEntry{L: min(i, len(lines)-1) + 1, PID: "C07", Kind: "build-diff:" + ob.tag})
+				break
+			}
+		}
+		os.Remove(of)
 	}
 	res, err := env.TLC(traceMod, nil, 1, heapMB, []string{"VERIF_TRACE=" + ef}, 40*time.Minute)
 	if err != nil {
@@ -210,6 +230,7 @@ func validate(env *run.Env, bin string, traceMod string, idx int, progs []gen.Pr
 		}
 		r.bad = append(r.bad, e)
 	}
+	r.bad = append(r.bad, buildDiffs...)
 	sort.Slice(r.bad, func(i, j int) bool { return r.bad[i].L < r.bad[j].L })
 	if len(lines) > 2 {
 		r.sample = json.RawMessage(truncJSON(lines[min(len(lines)-1, 3+idx%5)]))
@@ -257,6 +278,9 @@ func min(a, b int) int {
 	}
 	return b
 }
+
+// otherBuild is an executor built with another build-tag set.
+type otherBuild struct{ tag, bin string }
 
 // finding is an entry of known_findings.json.
 type finding struct {
@@ -368,6 +392,17 @@ func runCheck(env *run.Env, c *check) int {
 		die("%v", err)
 	}
 	logf("built executor from %s", env.Repo)
+	var others []otherBuild
+	for _, tag := range c.builds {
+		if tag == "" {
+			continue
+		}
+		b, err := env.BuildExec("vexec_"+tag, tag, false)
+		if err != nil {
+			die("%v", err)
+		}
+		others = append(others, otherBuild{tag, b})
+	}
 
 	// (E) bounded models
 	var states, transitions int64
@@ -410,7 +445,7 @@ func runCheck(env *run.Env, c *check) int {
 			defer wg.Done()
 			sem <- struct{}{}
 			defer func() { <-sem }()
-			results[i] = validate(env, bin, c.trace, i, batches[i], 3000)
+			results[i] = validate(env, bin, c.trace, i, batches[i], 3000, others...)
 		}(i)
 	}
 	wg.Wait()
